@@ -88,6 +88,12 @@ M = [
     ("c12-chomsky-unit-check", "C12", "notebook_chomsky.py", "        if phase >= 3:\n            feedback = feedback + check_cfg_has_no_unit_productions(G1)", "        if phase >= 4:\n            feedback = feedback + check_cfg_has_no_unit_productions(G1)"),
     ("c12-minimal-count", "C12", "notebook_dfa.py", "        if len(D.Q) != len(answer.Q):", "        if len(D.Q) > len(answer.Q):"),
     ("c12-reverse-language", "C12", "notebook_dfa.py", "        L2 = language_reverse(generate_language(D, length))", "        L2 = language_reverse(generate_language(D, length - 1))"),
+    ("c13-state-set-separator", "C13", "dfa.py", "    return '{{{}}}'.format(','.join(sorted(Q)))", "    return '{{{}}}'.format(', '.join(sorted(Q)))"),
+    ("c13-state-set-regex", "C13", "automaton_algorithms.py", "    return r'\\{[\\w,]*\\}'\n\n\ndef state_product_regex", "    return r'\\{[\\w]*\\}'\n\n\ndef state_product_regex"),
+    ("c13-minimal-vs-table-filling", "C13", "notebook_dfa.py", "        D = dfa_quotient(D)\n        answer = parse_dfa(answer_dfa", "        D = dfa_remove_unreachable_states(D)\n        D = dfa_quotient(D)\n        answer = parse_dfa(answer_dfa"),
+    ("c13-simple-print-parens", "C13", "regexp.py", "        if n1:\n            x1 = '({})'.format(x1)\n        if n2:\n            x2 = '({})'.format(x2)\n        return '{}{}'.format(x1, x2)", "        if n1:\n            x1 = '({})'.format(x1)\n        return '{}{}'.format(x1, x2)"),
+    ("c13-cyk-print-order", "C13", "cfg_algorithms.py", "    return '\\n'.join(reversed(lines))", "    return '\\n'.join(lines)"),
+    ("c13-reverse-eps-name", "C13", "dfa_algorithms.py", "def dfa_reverse(D: DFA) -> NFA:\n    epsilon = Symbol('ε')", "def dfa_reverse(D: DFA) -> NFA:\n    epsilon = Symbol('')"),
     ("c06-gnfa-overwrite", "C06", "regexp_algorithms.py", "            delta1[q, q1] = regexp.Sum(delta1[q, q1], regexp.Symbol(a))", "            delta1[q, q1] = regexp.Symbol(a)"),
 ]
 
@@ -108,7 +114,7 @@ def run(ids, tier, props):
                 results.append((mid, prop, "MUTANT-STALE (%d matches)" % text.count(old)))
                 continue
             open(path, "w", encoding="utf8").write(text.replace(old, new))
-            env = dict(os.environ, GAMBATOOLS_SRC=os.path.join(tmp, "src"), VERIF_EVIDENCE_DIR=os.path.join(tmp, "ev"), VERIF_NEW_REPLAYS=os.path.join(tmp, "rp"))
+            env = dict(os.environ, GAMBATOOLS_SRC=os.path.join(tmp, "src"), VERIF_EVIDENCE_DIR=os.path.join(tmp, "ev"), VERIF_NEW_REPLAYS=os.path.join(tmp, "rp"), VERIF_NOTEBOOKS="/repo/notebooks")
             p = subprocess.run([PY, os.path.join(ROOT, "harness", "check.py"), prop, "--tier", tier, "--no-selftest"], env=env, capture_output=True, text=True)
             verdict = {0: "MISSED", 1: "caught", 2: "HARNESS-ERROR"}.get(p.returncode, "rc=%d" % p.returncode)
             first = next((l for l in p.stdout.splitlines() if l.startswith("FAIL")), "")
